@@ -462,6 +462,7 @@ func (m *machine) registerIntrinsics() {
 	m.registerCBORIntrinsics()
 	m.registerRopeIntrinsics()
 	m.registerReplacements()
+	m.registerAtomicIntrinsics()
 	m.registerEnvReplacements()
 }
 
